@@ -96,7 +96,7 @@ IsAbsenceStep(opts, time) == Mem(opts.absL, time)
 
 \* ---- well-formedness of generated configurations -----------------------
 CfgOK(cfg) ==
-  /\ cfg.Q \in 1..4
+  /\ cfg.Q \in 1..60
   /\ \A t \in Tasks(cfg):
         /\ (cfg.tasks[t].work * (4 - cfg.tasks[t].prog)) % 4 = 0
         /\ cfg.tasks[t].comp \in 0..Len(cfg.comps)
